@@ -203,6 +203,9 @@ class Harness:
     def canon(self, w):
         return (self.cn(w.world), tuple(sorted(w.bufs)))
 
+    def refstate(self, w):
+        return tuple((n, k) for n, (k, _) in w.cols.items())
+
     def outcome(self, w):
         return (tuple((n, k) for n, (k, _) in w.cols.items()), w.last)
 
